@@ -141,6 +141,7 @@ func vNewWorld(et bool, chunk int) *vWorld {
 
 var (
 	vLocalAddr  net.Addr = &net.TCPAddr{IP: net.IP{10, 0, 0, 1}, Port: 9000}
+	vLocalUDP   net.Addr = &net.UDPAddr{IP: net.IP{10, 0, 0, 1}, Port: 9000}
 	vRemoteAddr net.Addr = &net.TCPAddr{IP: net.IP{10, 0, 0, 2}, Port: 40000}
 	vRemoteSA            = &unix.SockaddrInet4{Port: 40000, Addr: [4]byte{10, 0, 0, 2}}
 )
